@@ -214,6 +214,32 @@ def run(prog, rep, tier):
                 rep.violation(R25, "%s|pieces|%d" % (p, len(lines_)), "%s: %s" % (p.split("::")[-1], problems[0]))
     rep.floor(R25, 4)
 
+    # ------------------------------------------------------------ R2.7 (shared with C12 R12.1)
+    # A file is dismissed in stage 1 when block zero holds fewer lines/messages than a minimum that is
+    # looked up by the length of block zero.  Every message of a log that fails the minimum is dropped
+    # (known finding F4: a log of one long message prints nothing at the default block size).
+    import c12 as _c12
+    R27 = rep.rule("R2.7", "no stage-1 minimum count is selected by the length of block zero (shared with C12 R12.1)")
+    _c12.r121(prog, rep, R27)
+    rep.floor("R2.7", 3)
+
+    # ------------------------------------------------------------ R2.6 NUL bytes are content
+    import blockzero
+    R26 = rep.rule("R2.6", "stage 1 dismisses a file for NUL bytes only if every examined byte is NUL")
+    bzb, tests = blockzero.analyze(prog)
+    if len(tests) != 1:
+        raise CheckerError("blockzero_analysis_bytes: %d quantified byte tests leading to FileErrNullBytes (expected 1)" % len(tests))
+    t0 = tests[0]
+    rep.examined(R26, bzb.path + "|nul-test", sample=t0)
+    q, pred, rej = t0["quantifier"], t0["predicate"], t0["reject_on"]
+    if pred is None or pred[1] != 0:
+        raise CheckerError("blockzero_analysis_bytes: byte predicate of the NUL test not recognised (%s)" % (pred,))
+    # normal form "reject iff all bytes == 0":  all(==0) & reject on true   |   any(!=0) & reject on false
+    universal = (q == "all" and pred[0] == "Eq" and rej is True) or (q == "any" and pred[0] == "Ne" and rej is False)
+    if not universal:
+        rep.violation(R26, bzb.path + "|nul-test", "blockzero_analysis_bytes: the file is dismissed (FileErrNullBytes) when %s(%s %s) is %s (line %d), i.e. not only when every examined byte is NUL; "
+                      "a text log that merely contains a NUL byte near its start loses all its messages" % (q, "b ==" if pred[0] == "Eq" else "b !=", pred[1], rej, t0["line"]))
+
     return rep.finish(
         "Static necessary-condition check of the hand-over stages only: the streaming loop threads the returned offset into the next find and "
         "sends each found message once; the sysline printers traverse lines and parts with plain forward slice iterators; the final newline is "
